@@ -9,6 +9,9 @@ clock).  A history is a sequence over (i = holder 0/1; second holder only for Qu
 
     co_i (checkout)       co_i with the checkout listener raising DisconnectionError /
                           InvalidatePoolError on its first call
+                          co_i while, *during its creator call*, another connection's disconnect invalidates the pool
+                          (``pool._invalidate(failing fairy, error)`` as ``Connection._handle_dbapi_exception`` does), or
+                          the recycle time elapses -- the overlap a second thread would produce, made deterministic
     iso_i (register the isolation-level reset callback that Connection.execution_options(isolation_level=...) registers)
     ci_i (fairy.close())  inv_i hard / soft      detach_i      drop_i (del fairy: refcount-zero weakref callback)
     dispose               recreate (dispose + use pool.recreate(), as Engine.dispose does)
@@ -178,7 +181,9 @@ def base_ops(m, cfg):
     ops = []
     for i, h in enumerate(m.holders):
         if h is None:
-            ops += [("co", i, None), ("co", i, "disc"), ("co", i, "discpool")]
+            ops += [("co", i, None), ("co", i, "disc"), ("co", i, "discpool"), ("co", i, "inval_during")]
+            if rc > 0:
+                ops.append(("co", i, "tick_during"))
         else:
             ops.append(("ci", i))
             if h == "held":
@@ -198,7 +203,9 @@ def base_ops(m, cfg):
 
 def op_name(op):
     if op[0] == "co":
-        return "co%d%s" % (op[1], "" if op[2] is None else "[listener:%s]" % {"disc": "DisconnectionError", "discpool": "InvalidatePoolError"}[op[2]])
+        return "co%d%s" % (op[1], "" if op[2] is None else {
+            "disc": "[listener:DisconnectionError]", "discpool": "[listener:InvalidatePoolError]",
+            "inval_during": "[pool invalidated during connect()]", "tick_during": "[recycle time passes during connect()]"}[op[2]])
     if op[0] == "inv":
         return "invalidate%d(%s)" % (op[1], op[2])
     if len(op) == 2:
@@ -223,6 +230,10 @@ class Env:
         self._cm.__exit__(None, None, None)
 
 
+class _NoFairy:
+    """stands for 'the disconnect was seen on a connection that is not checked out from here'"""
+
+
 class World:
     def __init__(self, env, cfg):
         kind, pp, rc = cfg
@@ -243,10 +254,25 @@ class World:
         self.owner = {}
         self.using = 0  # index (in self.pools) of the pool currently being asked for a connection
 
+        self.during = None   # what happens while the next creator call is in progress (overlap hooks)
+        self.overlap = []    # (kind, cid being created, cid of the fairy the invalidation was reported on)
+
         def creator():
             c = env.fake.connect()
             self.born[c._vf_cid] = self.epoch
             self.owner[c._vf_cid] = self.using
+            d, self.during = self.during, None
+            if d == "inval_during":
+                # a disconnect seen elsewhere invalidates the pool right now, before this connect() returns: the pool-wide
+                # half of what Connection._handle_dbapi_exception does, engine.pool._invalidate(<failing connection>, error).
+                # (The failing connection is represented by an object without a record, so the stamp is always taken; the
+                # per-connection half is the inv_i(hard) op.)
+                self.overlap.append((d, c._vf_cid, None))
+                self.pool._invalidate(_NoFairy(), sqlite3.ProgrammingError(faults.DISCONNECT_MSG))
+            elif d == "tick_during":
+                self.overlap.append((d, c._vf_cid, None))
+                env.clock.advance(RECYCLE + 10)
+                self.epoch += 1
             return c
 
         self.creator = creator
@@ -276,15 +302,18 @@ class World:
             led.plan[led.n + fault[0]] = fault[1]
         self.raise_next = None
         del self.listener_fired[:]
+        del self.overlap[:]
         try:
             k = op[0]
             if k == "co":
-                self.raise_next = op[2]
+                self.raise_next = op[2] if op[2] in ("disc", "discpool") else None
+                self.during = op[2] if op[2] in ("inval_during", "tick_during") else None
                 self.using = len(self.pools) - 1
                 try:
                     self.holders[op[1]] = self.pool.connect()
                 finally:
                     self.raise_next = None
+                    self.during = None
             elif k == "ci":
                 f = self.holders[op[1]]
                 self.holders[op[1]] = None
@@ -369,7 +398,7 @@ def make_step(rec, env, cfg):
         errs = [c for c in sl if c.fault is not None or (c.dead and c.kind != "close")]
         evs = "+".join(sorted({"%s at %s" % (c.fault if c.fault else "dead", c.kind) for c in errs})) or "-"
         sit = "%s [pool=%s pre_ping=%d recycle=%d holders=%s] driver errors: %s" % (op_name(op), kind, int(pp), rc, hs, evs)
-        nontrivial = bool(errs) or bool(ms.hard or ms.soft) or op[0] in ("inv", "restart", "drop", "detach") or (
+        nontrivial = bool(errs) or bool(ms.hard or ms.soft) or op[0] in ("inv", "restart", "drop", "detach", "iso") or (
             op[0] == "co" and op[2] is not None)
         rec.case((cfg, hist_, opf), nontrivial=nontrivial)
         rec.transition()
@@ -430,6 +459,18 @@ def make_step(rec, env, cfg):
             i = op[1]
             cid_now = w.cid(w.holders[i]) if w.holders[i] is not None else None
             # pool-wide invalidation: InvalidatePoolError from the listener, or a failed pre-ping (disconnect class)
+            for (ok_, ncid, ocid) in w.overlap:
+                # the connection being opened while the invalidation / recycle deadline happened pre-dates it
+                if ok_ == "inval_during":
+                    if ocid is not None:
+                        hard.add(ocid)
+                        for j, hc in enumerate(held_before):
+                            if hc == ocid and j != i:
+                                holders[j] = "invalid"
+                                iso.discard(j)
+                    if not exit_now:
+                        soft |= {c for c in open_before if w.owner.get(c) == w.using} | {ncid}
+                # ("tick_during": born[ncid] < epoch already marks it stale for the recycle check below)
             for (lk, lcid) in w.listener_fired:
                 hard.add(lcid)
                 if lk == "discpool" and not exit_now:  # (an interrupted invalidation is no invalidation)
@@ -448,10 +489,13 @@ def make_step(rec, env, cfg):
                 ci = led.conns[cid_now]
                 if cid_now in hard:
                     return bad("I1-discarded-connection-handed-out", "checkout returned a connection the pool had discarded")
-                if cid_now in ms.soft or cid_now in soft:
+                # the checkout that *creates* a connection while the invalidation / deadline happens may still return it
+                # (unknowable whether it is stale); from its release on it must be replaced like any older connection
+                just_made = {n for (_, n, _) in w.overlap}
+                if cid_now in ms.soft or (cid_now in soft and cid_now not in just_made):
                     return bad("I1-stale-connection-handed-out", "checkout returned a connection that was soft-invalidated / "
                                "older than a pool invalidation / past recycle without replacing it")
-                if rc and w.born[cid_now] < w.epoch:
+                if rc and w.born[cid_now] < w.epoch and cid_now not in just_made:
                     return bad("I1-stale-connection-handed-out", "checkout returned a connection older than recycle")
                 if not ci.open:
                     return bad("I1-closed-connection-handed-out", "checkout returned a connection whose close() was called")
